@@ -193,7 +193,7 @@ def state_diff(x, y):
 #      aimed at whoever acts next, and of the next block's own transactions)          -> C01
 #   Br the same blocks with process restarts (always right after a block in which a staking transaction failed) -> C03
 STREAM_PLAN = {
-    "quick": [("super", 3, 70), ("poor", 1, 40)],
+    "quick": [("super", 3, 70), ("poor", 1, 40), ("pay", 1, 40)],
     "thorough": [("super", 14, 110), ("pay", 3, 80), ("life", 3, 80), ("poor", 3, 80), ("sidauth", 3, 80), ("fault", 2, 80), ("did", 2, 80)],
 }
 STAKING_KINDS = ("Delegate", "Undelegate", "Redelegate", "Reset", "AddVstorage", "RemoveVstorage", "Create")
@@ -273,8 +273,17 @@ def stream_scripts(blocks, rnd):
                     close()
                 na.append({"op": rnd.choice(["simulate", "checktx"]), "tx": poison(tx, "A")})
                 nb.append({"op": rnd.choice(["simulate", "checktx"]), "tx": poison(tx, "B")})
-            elif rnd.random() < 0.1:
+            elif rnd.random() < 0.35:
+                # a non-consensus execution of the very transaction that is about to be delivered (a gas simulation)
                 na.append({"op": rnd.choice(["simulate", "checktx"]), "tx": tx})
+                nb.append({"op": "simulate", "tx": tx})
+            if tx["kind"] == "Store" and tx.get("op") == 1 and rnd.random() < 0.5:
+                # a store that gets as far as choosing providers and then fails (its price is beyond any balance): in the stream,
+                # in a block of its own, followed by a restart on the restarting replica
+                if cur:
+                    close()
+                cur = [dict(tx, data="D12", commit="D12", cseg=["D12"], alias="alD12", size=5000000000)]
+                close(failed=True)
             cur.append(tx)
             if tx["kind"] == "Delegate" and not failed and tx.get("val") in ("v1", "v2"):
                 deleg_on.setdefault(tx["creator"], [])
